@@ -8,6 +8,7 @@ CONSTANTS
   Fmts = {"bc_idx", "idx_bc"}
   NFiles = {1}
   Lazy = {"none", "other", "this"}
+  ProbeMax = 5
   Touches = {"lookup", "getitem"}
   Variant = "idx_line"
 INVARIANT TypeOK
